@@ -260,3 +260,612 @@ theorem release_live {s after0 initT pend x} (h : Live s after0 initT pend x) (n
       refine ⟨base x1 rfl rfl (fun m hm => hm) (fun he => by rw [he] at hemp; simp at hemp), ⟨rfl, rfl, rfl, haft, hheap1⟩, fun hc => (hge hc).elim, fun _ => hni⟩
 
 end Nject
+
+namespace Nject
+
+theorem Live.congr {s after0 initT pend x} (h : Live s after0 initT pend x) {x' : Topo}
+    (hafter : x'.after = x.after) (hdone : x'.done = x.done) (hu : x'.unblocked = x.unblocked) (hw : x'.weakBlocked = x.weakBlocked) :
+    Live s after0 initT pend x' := by
+  have hh : ∀ m, inHeap x' m ↔ inHeap x m := by
+    intro m; unfold inHeap; rw [hu, hw]
+  exact
+    { sub := by rw [hafter]; exact h.sub
+      gone := by rw [hafter, hdone]; exact h.gone
+      relTy := fun q hq hp hlt num hr => by
+        rw [hdone] at hq ⊢; rw [hh]; exact h.relTy q hq hp hlt num hr
+      initTy := fun num hi => by rw [hdone, hh]; exact h.initTy num hi
+      ready := fun i hi h0 he => by rw [hafter] at he; rw [hdone, hh]; exact h.ready i hi h0 he }
+
+theorem foldl_release_live {s after0 initT pend} (i : Nat) :
+    ∀ (l : List Nat) (x : Topo), (∀ n' ∈ l, n' < s.n) → Live s after0 initT pend x →
+      Live s after0 initT pend (l.foldl (fun x n' => x.release s n' i) x) ∧
+      Frame2 x (l.foldl (fun x n' => x.release s n' i) x) ∧
+      ∀ n' ∈ l, i ∉ (l.foldl (fun x n' => x.release s n' i) x).after.get n'
+  | [], x, _, h => ⟨h, Frame2.refl x, fun _ hn => by cases hn⟩
+  | n' :: l, x, hl, h => by
+    simp only [List.foldl_cons]
+    have ⟨h1, f1, _, g1⟩ := release_live h n' i
+    have ⟨h2, f2, g2⟩ := foldl_release_live i l _ (fun a ha => hl a (by simp [ha])) h1
+    refine ⟨h2, f1.trans f2, fun a ha => ?_⟩
+    rcases List.mem_cons.mp ha with rfl | ha
+    · exact fun hc => g1 (hl a (by simp)) (f2.aft a i hc)
+    · exact g2 a ha
+
+theorem releaseNode_live {s NR after0 initT pend x} (hs : SOK s NR) (h : Live s after0 initT pend x) (i : Nat) :
+    Live s after0 initT pend (x.releaseNode s i) ∧ Frame2 x (x.releaseNode s i) ∧
+    ∀ n' ∈ s.before.get i, i ∉ (x.releaseNode s i).after.get n' := by
+  unfold Topo.releaseNode
+  have hfold : ∀ (l : List Nat) (y : Topo), Live s after0 initT pend y →
+      Live s after0 initT pend (l.foldl (fun (x : Topo) n => { x with weakAfter := x.weakAfter.set n (setDel (x.weakAfter.get n) i) }) y) ∧
+      Frame2 y (l.foldl (fun (x : Topo) n => { x with weakAfter := x.weakAfter.set n (setDel (x.weakAfter.get n) i) }) y) := by
+    intro l
+    induction l with
+    | nil => intro y hy; exact ⟨hy, Frame2.refl y⟩
+    | cons a l ih =>
+      intro y hy
+      simp only [List.foldl_cons]
+      have hy' : Live s after0 initT pend { y with weakAfter := y.weakAfter.set a (setDel (y.weakAfter.get a) i) } :=
+        hy.congr rfl rfl rfl rfl
+      have ⟨c, f⟩ := ih _ hy'
+      exact ⟨c, ⟨f.out, f.done, f.cr, f.aft, fun m hm => f.heap m hm⟩⟩
+  have ⟨c1, f1⟩ := hfold (s.weakBefore.get i) x h
+  have ⟨c2, f2, g2⟩ := foldl_release_live i (s.before.get i) _ (fun n' hn' => hs.beforeLt i n' hn') c1
+  exact ⟨c2, f1.trans f2, g2⟩
+
+theorem foldl_releaseTy_live {s after0 initT pend} (i : Nat) (tbl : List (Ty × Nat)) (htbl : ∀ t num, tbl.lookup t = some num → s.n < num) :
+    ∀ (l : List Ty) (x : Topo), Live s after0 initT pend x →
+      Live s after0 initT pend (l.foldl (fun x t => match tbl.lookup t with | some num => x.release s num i | none => x) x) ∧
+      Frame2 x (l.foldl (fun x t => match tbl.lookup t with | some num => x.release s num i | none => x) x) ∧
+      ∀ t ∈ l, ∀ num, tbl.lookup t = some num →
+        inHeap (l.foldl (fun x t => match tbl.lookup t with | some num => x.release s num i | none => x) x) num
+  | [], x, h => ⟨h, Frame2.refl x, fun _ ht => by cases ht⟩
+  | t :: l, x, h => by
+    simp only [List.foldl_cons]
+    cases hlk : tbl.lookup t with
+    | none =>
+      simp only []
+      have ⟨a, b, c⟩ := foldl_releaseTy_live i tbl htbl l x h
+      refine ⟨a, b, fun t' ht' num hn => ?_⟩
+      rcases List.mem_cons.mp ht' with rfl | ht'
+      · rw [hlk] at hn; cases hn
+      · exact c t' ht' num hn
+    | some num0 =>
+      simp only []
+      have ⟨h1, f1, p1, _⟩ := release_live h num0 i
+      have ⟨a, b, c⟩ := foldl_releaseTy_live i tbl htbl l _ h1
+      refine ⟨a, f1.trans b, fun t' ht' num hn => ?_⟩
+      rcases List.mem_cons.mp ht' with rfl | ht'
+      · rw [hlk] at hn; cases hn
+        exact b.heap num0 (p1 (Nat.le_of_lt (htbl _ num0 hlk)))
+      · exact c t' ht' num hn
+
+theorem releaseProvider_live {s NR after0 initT pend x} (hs : SOK s NR) (h : Live s after0 initT pend x) (i : Nat) :
+    Live s after0 initT pend (x.releaseProvider s i) ∧ Frame2 x (x.releaseProvider s i) ∧
+    ∀ num, Releases s i num → inHeap (x.releaseProvider s i) num := by
+  unfold Topo.releaseProvider
+  have ⟨c1, f1, g1⟩ := foldl_releaseTy_live (s := s) (after0 := after0) (initT := initT) (pend := pend) i s.downTypes hs.downGt (s.outOf i) x h
+  have ⟨c2, f2, g2⟩ := foldl_releaseTy_live (s := s) (after0 := after0) (initT := initT) (pend := pend) i s.upTypes hs.upGt (s.recvOf i) _ c1
+  refine ⟨c2, f1.trans f2, fun num hr => ?_⟩
+  rcases hr with ⟨t, ht, hl⟩ | ⟨t, ht, hl⟩
+  · exact f2.heap num (g1 t ht num hl)
+  · exact g2 t ht num hl
+
+end Nject
+
+namespace Nject
+
+theorem Live.markDone {s after0 initT x} {i : Nat} (h : Live s after0 initT (· = i) x) {y : Topo}
+    (hafter : y.after = x.after) (hdone : y.done = i :: x.done) (hu : y.unblocked = x.unblocked) (hw : y.weakBlocked = x.weakBlocked) :
+    Live s after0 initT (· = i) y := by
+  have hh : ∀ m, inHeap y m ↔ inHeap x m := by
+    intro m; unfold inHeap; rw [hu, hw]
+  refine ⟨?_, ?_, ?_, ?_, ?_⟩
+  · rw [hafter]; exact h.sub
+  · intro m hm hp n' hn'
+    rw [hafter]; rw [hdone] at hm
+    rcases List.mem_cons.mp hm with rfl | hm
+    · exact (hp rfl).elim
+    · exact h.gone m hm hp n' hn'
+  · intro q hq hp hlt num hr
+    rw [hdone] at hq
+    rcases List.mem_cons.mp hq with rfl | hq
+    · exact (hp rfl).elim
+    · rw [hh, hdone]
+      rcases h.relTy q hq hp hlt num hr with a | a | a
+      · exact Or.inl a
+      · exact Or.inr (Or.inl (List.mem_cons_of_mem _ a))
+      · exact Or.inr (Or.inr a)
+  · intro num hi
+    rw [hh, hdone]
+    rcases h.initTy num hi with a | a | a
+    · exact Or.inl a
+    · exact Or.inr (Or.inl (List.mem_cons_of_mem _ a))
+    · exact Or.inr (Or.inr a)
+  · intro j hj h0 he
+    rw [hafter] at he
+    rw [hh, hdone]
+    rcases h.ready j hj h0 he with a | a | a
+    · exact Or.inl a
+    · exact Or.inr (Or.inl (List.mem_cons_of_mem _ a))
+    · exact Or.inr (Or.inr a)
+
+theorem Live.finish {s after0 initT y} {i : Nat} (h : Live s after0 initT (· = i) y) (hid : i ∈ y.done)
+    (hg : ∀ n' ∈ s.before.get i, i ∉ y.after.get n')
+    (hr : i < s.n → ∀ num, Releases s i num → inHeap y num ∨ num ∈ y.done) :
+    Live s after0 initT (fun _ => False) y := by
+  refine ⟨h.sub, ?_, ?_, ?_, ?_⟩
+  · intro m hm _ n' hn'
+    by_cases hmi : m = i
+    · subst hmi; exact hg n' hn'
+    · exact h.gone m hm hmi n' hn'
+  · intro q hq _ hlt num hrel
+    by_cases hqi : q = i
+    · subst hqi
+      rcases hr hlt num hrel with a | a
+      · exact Or.inl a
+      · exact Or.inr (Or.inl a)
+    · rcases h.relTy q hq hqi hlt num hrel with a | a | a
+      · exact Or.inl a
+      · exact Or.inr (Or.inl a)
+      · exact Or.inr (Or.inl (a ▸ hid))
+  · intro num hi
+    rcases h.initTy num hi with a | a | a
+    · exact Or.inl a
+    · exact Or.inr (Or.inl a)
+    · exact Or.inr (Or.inl (a ▸ hid))
+  · intro j hj h0 he
+    rcases h.ready j hj h0 he with a | a | a
+    · exact Or.inl a
+    · exact Or.inr (Or.inl a)
+    · exact Or.inr (Or.inl (a ▸ hid))
+
+/-- one node taken off a queue and processed with `release = true` -/
+theorem processOne_live {s NR after0 initT x} {i : Nat} (hs : SOK s NR) (h : Live s after0 initT (· = i) x)
+    (hnd : i ∉ x.done) (hne : i ≠ s.n) :
+    Live s after0 initT (fun _ => False) (x.processOne s i true) := by
+  unfold Topo.processOne
+  have hd : x.done.contains i = false := by simpa using hnd
+  simp only [hd, Bool.false_eq_true, if_false, if_true, Bool.not_true]
+  by_cases hgt : i > s.n
+  · simp only [hgt, if_true]
+    let x1 : Topo := { x with done := i :: x.done }
+    have l1 : Live s after0 initT (· = i) x1 := h.markDone rfl rfl rfl rfl
+    have ⟨l2, f2, g2⟩ := releaseNode_live hs l1 i
+    have hid : i ∈ (x1.releaseNode s i).done := by rw [f2.done]; simp [x1]
+    exact l2.finish hid g2 (fun hlt => by omega)
+  · simp only [hgt, if_false]
+    have hlt : i < s.n := by omega
+    let x2 : Topo := { x with done := i :: x.done, out := x.out ++ [i] }
+    have l1 : Live s after0 initT (· = i) x2 := h.markDone rfl rfl rfl rfl
+    have ⟨l2, f2, g2⟩ := releaseNode_live hs l1 i
+    have ⟨l3, f3, g3⟩ := releaseProvider_live hs l2 i
+    have hid : i ∈ ((x2.releaseNode s i).releaseProvider s i).done := by rw [f3.done, f2.done]; simp [x2]
+    exact l3.finish hid (fun n' hn' hc => g2 n' hn' (f3.aft n' i hc)) (fun _ num hr => Or.inl (g3 num hr))
+
+end Nject
+
+namespace Nject
+
+/-! ### what `processOne` does to `out` -/
+
+theorem releaseNode_frame (s : TopoS) (x : Topo) (i : Nat) : Frame x (x.releaseNode s i) := by
+  unfold Topo.releaseNode
+  have hfold : ∀ (l : List Nat) (y : Topo),
+      Frame y (l.foldl (fun (x : Topo) n => { x with weakAfter := x.weakAfter.set n (setDel (x.weakAfter.get n) i) }) y) := by
+    intro l
+    induction l with
+    | nil => intro y; exact Frame.refl y
+    | cons a l ih => intro y; simp only [List.foldl_cons]; exact ⟨(ih _).out, (ih _).done, (ih _).cr⟩
+  have hfold2 : ∀ (l : List Nat) (y : Topo), Frame y (l.foldl (fun x n' => x.release s n' i) y) := by
+    intro l
+    induction l with
+    | nil => intro y; exact Frame.refl y
+    | cons a l ih => intro y; simp only [List.foldl_cons]; exact (release_frame s y a i).trans (ih _)
+  exact (hfold _ x).trans (hfold2 _ _)
+
+theorem releaseProvider_frame (s : TopoS) (x : Topo) (i : Nat) : Frame x (x.releaseProvider s i) := by
+  unfold Topo.releaseProvider
+  have hfold : ∀ (tbl : List (Ty × Nat)) (l : List Ty) (y : Topo),
+      Frame y (l.foldl (fun x t => match tbl.lookup t with | some num => x.release s num i | none => x) y) := by
+    intro tbl l
+    induction l with
+    | nil => intro y; exact Frame.refl y
+    | cons a l ih =>
+      intro y
+      simp only [List.foldl_cons]
+      cases tbl.lookup a with
+      | none => exact ih y
+      | some num => exact (release_frame s y num i).trans (ih _)
+  exact (hfold _ _ x).trans (hfold _ _ _)
+
+theorem processOne_out (s : TopoS) (x : Topo) (i : Nat) (rel : Bool) :
+    (x.processOne s i rel).out = if x.done.contains i then x.out else if i > s.n then x.out else x.out ++ [i] := by
+  unfold Topo.processOne
+  by_cases hd : x.done.contains i
+  · simp only [hd, if_true]
+  · simp only [hd, Bool.false_eq_true, if_false]
+    by_cases hgt : i > s.n
+    · simp only [hgt, if_true]
+      cases rel with
+      | false => rfl
+      | true => simp only [if_true]; exact (releaseNode_frame s _ i).out
+    · simp only [hgt, if_false]
+      cases rel with
+      | false => simp only [Bool.not_false, if_true]; exact (releaseNode_frame s _ i).out
+      | true =>
+        simp only [Bool.not_true, Bool.false_eq_true, if_false]
+        exact ((releaseProvider_frame s _ i).out).trans (releaseNode_frame s _ i).out
+
+/-! ### taking an entry off a heap -/
+
+theorem heapMin_none : ∀ {h : RHeap}, heapMin h = none → h = []
+  | [], _ => rfl
+  | e :: rest, hm => by
+    unfold heapMin at hm
+    cases hr : heapMin rest with
+    | none => simp [hr] at hm
+    | some m => simp only [hr] at hm; split at hm <;> cases hm
+
+theorem heapPop_none {h : RHeap} (hp : heapPop h = none) : h = [] := by
+  unfold heapPop at hp
+  cases hm : heapMin h with
+  | none => exact heapMin_none hm
+  | some m => simp [hm] at hp
+
+theorem heapPop_rest {h : RHeap} {i : Nat} {rest : RHeap} (hp : heapPop h = some (i, rest)) :
+    ∀ e ∈ h, e ∈ rest ∨ e.2 = i := by
+  unfold heapPop at hp
+  cases hm : heapMin h with
+  | none => simp [hm] at hp
+  | some m =>
+    simp only [hm, Option.some.injEq, Prod.mk.injEq] at hp
+    obtain ⟨h1, h2⟩ := hp
+    subst h1; subst h2
+    intro e he
+    by_cases hem : e = m
+    · right; rw [hem]
+    · left; exact (List.mem_erase_of_ne hem).mpr he
+
+/-- the state with the popped entry removed, the popped node pending -/
+theorem Live.pop {s after0 initT x} (h : Live s after0 initT (fun _ => False) x) {y : Topo} {i : Nat}
+    (hafter : y.after = x.after) (hdone : y.done = x.done) (hh : ∀ m, inHeap x m → inHeap y m ∨ m = i) :
+    Live s after0 initT (· = i) y := by
+  refine ⟨?_, ?_, ?_, ?_, ?_⟩
+  · rw [hafter]; exact h.sub
+  · intro m hm _ n' hn'; rw [hafter]; rw [hdone] at hm; exact h.gone m hm (fun f => f) n' hn'
+  · intro q hq _ hlt num hr
+    rw [hdone] at hq ⊢
+    rcases h.relTy q hq (fun f => f) hlt num hr with a | a | a
+    · exact (hh num a).elim Or.inl (fun e => Or.inr (Or.inr e))
+    · exact Or.inr (Or.inl a)
+    · exact a.elim
+  · intro num hi
+    rw [hdone]
+    rcases h.initTy num hi with a | a | a
+    · exact (hh num a).elim Or.inl (fun e => Or.inr (Or.inr e))
+    · exact Or.inr (Or.inl a)
+    · exact a.elim
+  · intro j hj h0 he
+    rw [hafter] at he; rw [hdone]
+    rcases h.ready j hj h0 he with a | a | a
+    · exact (hh j a).elim Or.inl (fun e => Or.inr (Or.inr e))
+    · exact Or.inr (Or.inl a)
+    · exact a.elim
+
+/-- the popped node had been processed before: nothing changes -/
+theorem Live.popDone {s after0 initT x} (h : Live s after0 initT (fun _ => False) x) {y : Topo} {i : Nat}
+    (hafter : y.after = x.after) (hdone : y.done = x.done) (hh : ∀ m, inHeap x m → inHeap y m ∨ m = i) (hid : i ∈ x.done) :
+    Live s after0 initT (fun _ => False) y := by
+  have fix : ∀ m, inHeap x m ∨ m ∈ x.done ∨ False → inHeap y m ∨ m ∈ y.done ∨ False := by
+    intro m hm
+    rw [hdone]
+    rcases hm with a | a | a
+    · exact (hh m a).elim Or.inl (fun e => Or.inr (Or.inl (e ▸ hid)))
+    · exact Or.inr (Or.inl a)
+    · exact a.elim
+  refine ⟨?_, ?_, ?_, ?_, ?_⟩
+  · rw [hafter]; exact h.sub
+  · rw [hafter, hdone]; exact h.gone
+  · intro q hq hp hlt num hr; rw [hdone] at hq; exact fix num (h.relTy q hq hp hlt num hr)
+  · intro num hi; exact fix num (h.initTy num hi)
+  · intro j hj h0 he; rw [hafter] at he; exact fix j (h.ready j hj h0 he)
+
+end Nject
+
+namespace Nject
+
+/-! ### the order condition and the moments when the next fixed provider is taken -/
+
+/-- `j` is accounted for by the fixed providers before position `m`: it is one of them, or a type node that the
+    init function or one of them releases -/
+def OKset (s : TopoS) (NR : List Nat) (initT : Nat → Prop) (m j : Nat) : Prop :=
+  (∃ k', k' < m ∧ NR[k']? = some j) ∨
+  (s.n < j ∧ (initT j ∨ ∃ k' q, k' < m ∧ NR[k']? = some q ∧ Releases s q j))
+
+theorem OKset.mono {s NR initT m m' j} (h : OKset s NR initT m j) (hm : m ≤ m') : OKset s NR initT m' j := by
+  rcases h with ⟨k', hk, hn⟩ | ⟨hj, hi | ⟨k', q, hk, hn, hr⟩⟩
+  · exact Or.inl ⟨k', by omega, hn⟩
+  · exact Or.inr ⟨hj, Or.inl hi⟩
+  · exact Or.inr ⟨hj, Or.inr ⟨k', q, by omega, hn, hr⟩⟩
+
+/-- the order condition: every constraint of the fixed provider at position `k` is met by the fixed providers
+    before it -- or, from position `kx` on, by `xr`; the constraints of `xr` are met by the fixed providers before `kx` -/
+structure LiveHyp (s : TopoS) (NR : List Nat) (after0 : NMap) (initT : Nat → Prop) (xr kx : Nat) : Prop where
+  xlt : xr < s.n
+  xne : after0.get xr ≠ []
+  kxle : kx ≤ NR.length
+  dual : ∀ i j, j ∈ after0.get i → i ∈ s.before.get j
+  a1 : ∀ k p, NR[k]? = some p → ∀ j ∈ after0.get p, OKset s NR initT k j ∨ (kx ≤ k ∧ s.n < j ∧ Releases s xr j)
+  a2 : ∀ j ∈ after0.get xr, OKset s NR initT kx j
+
+/-- `p` waits for a type that only `xr` supplies -/
+def Consumer (s : TopoS) (after0 : NMap) (initT : Nat → Prop) (xr p : Nat) : Prop :=
+  ∃ j ∈ after0.get p, s.n < j ∧ ¬ initT j ∧ ∀ q, Releases s q j → q = xr
+
+def Ord (s : TopoS) (after0 : NMap) (initT : Nat → Prop) (xr : Nat) (x : Topo) : Prop :=
+  ∀ (b p : Nat), x.out[b]? = some p → Consumer s after0 initT xr p → ∃ a : Nat, a < b ∧ x.out[a]? = some xr
+
+section turn
+variable {s : TopoS} {NR : List Nat} {after0 : NMap} {initT : Nat → Prop} {xr kx : Nat} {x : Topo}
+
+theorem turn_done (hs : SOK s NR) (hl : Live s after0 initT (fun _ => False) x) (f : Full s NR x)
+    (hu : x.unblocked = []) (hw : x.weakBlocked = []) (m' : Nat) (hm : m' ≤ f.m) (j : Nat) (hok : OKset s NR initT m' j) :
+    j ∈ x.done := by
+  have noHeap : ∀ m, ¬ inHeap x m := by
+    rintro m ⟨e, he, _⟩
+    rw [hu, hw] at he
+    rcases he with he | he <;> cases he
+  rcases hok with ⟨k', hk, hn⟩ | ⟨hj, hi | ⟨k', q, hk, hn, hr⟩⟩
+  · exact f.crDone k' j (by omega) hn
+  · rcases hl.initTy j hi with a | a | a
+    · exact (noHeap j a).elim
+    · exact a
+    · exact a.elim
+  · have hq : q ∈ x.done := f.crDone k' q (by omega) hn
+    have hqn : q < s.n := ((hs.mem q).mp (List.mem_iff_getElem?.mpr ⟨k', hn⟩)).1
+    rcases hl.relTy q hq (fun f => f) hqn j hr with a | a | a
+    · exact (noHeap j a).elim
+    · exact a
+    · exact a.elim
+
+/-- nothing that is done is still waited for -/
+theorem done_not_in_after (H : LiveHyp s NR after0 initT xr kx) (hl : Live s after0 initT (fun _ => False) x)
+    (i j : Nat) (hj : j ∈ x.after.get i) (hd : j ∈ x.done) : False :=
+  hl.gone j hd (fun f => f) i (H.dual i j (hl.sub i j hj)) hj
+
+theorem turn_xdone (hs : SOK s NR) (H : LiveHyp s NR after0 initT xr kx) (hl : Live s after0 initT (fun _ => False) x) (f : Full s NR x)
+    (hu : x.unblocked = []) (hw : x.weakBlocked = []) (hk : kx ≤ f.m) : xr ∈ x.done := by
+  have hempty : x.after.get xr = [] := by
+    apply List.eq_nil_iff_forall_not_mem.mpr
+    intro j hj
+    have hd := turn_done hs hl f hu hw kx hk j (H.a2 j (hl.sub xr j hj))
+    exact done_not_in_after H hl xr j hj hd
+  rcases hl.ready xr H.xlt H.xne hempty with a | a | a
+  · obtain ⟨e, he, _⟩ := a
+    rw [hu, hw] at he
+    rcases he with he | he <;> cases he
+  · exact a
+  · exact a.elim
+
+theorem turn_empty (hs : SOK s NR) (H : LiveHyp s NR after0 initT xr kx) (hl : Live s after0 initT (fun _ => False) x) (f : Full s NR x)
+    (hu : x.unblocked = []) (hw : x.weakBlocked = []) (p : Nat) (hp : NR[f.m]? = some p) : x.after.get p = [] := by
+  apply List.eq_nil_iff_forall_not_mem.mpr
+  intro j hj
+  rcases H.a1 f.m p hp j (hl.sub p j hj) with hok | ⟨hk, hjn, hr⟩
+  · exact done_not_in_after H hl p j hj (turn_done hs hl f hu hw f.m (Nat.le_refl _) j hok)
+  · have hx := turn_xdone hs H hl f hu hw hk
+    have noHeap : ∀ m, ¬ inHeap x m := by
+      rintro m ⟨e, he, _⟩
+      rw [hu, hw] at he
+      rcases he with he | he <;> cases he
+    rcases hl.relTy xr hx (fun f => f) H.xlt j hr with a | a | a
+    · exact (noHeap j a).elim
+    · exact done_not_in_after H hl p j hj a
+    · exact a.elim
+
+end turn
+
+/-- appending a provider whose constraints are all met keeps `Ord` -/
+theorem ord_append {s NR after0 initT xr x k} (hc : Core s NR x k) (d : Dep s after0 initT x) (o : Ord s after0 initT xr x)
+    (i : Nat) (hemp : x.after.get i = []) {y : Topo} (hy : y.out = x.out ++ [i]) : Ord s after0 initT xr y := by
+  intro b p hb hcons
+  rw [hy] at hb ⊢
+  have hold : ∀ (a z : Nat), x.out[a]? = some z → (x.out ++ [i])[a]? = some z := by
+    intro a z hz
+    have : a < x.out.length := by
+      rcases Nat.lt_or_ge a x.out.length with hl | hg
+      · exact hl
+      · rw [List.getElem?_eq_none hg] at hz; cases hz
+    rw [List.getElem?_append_left this]; exact hz
+  rcases getElem?_append_singleton hb with ⟨_, hb'⟩ | ⟨hbl, hpi⟩
+  · obtain ⟨a, ha, hz⟩ := o b p hb' hcons
+    exact ⟨a, ha, hold a xr hz⟩
+  · subst hpi
+    obtain ⟨j, hj, hjn, hni, hsole⟩ := hcons
+    have hdn : j ∈ x.done := by
+      rcases d.shrink p j hj with hin | hdn
+      · rw [hemp] at hin; cases hin
+      · exact hdn
+    rcases d.doneTy j hdn hjn with hin | ⟨q, hq, hrl⟩
+    · exact (hni hin).elim
+    · have := hsole q hrl
+      subst this
+      obtain ⟨a, ha⟩ := List.mem_iff_getElem?.mp hq
+      have hal : a < x.out.length := by
+        rcases Nat.lt_or_ge a x.out.length with hl | hg
+        · exact hl
+        · rw [List.getElem?_eq_none hg] at ha; cases ha
+      exact ⟨a, by omega, hold a q ha⟩
+
+/-- one node processed with `release = true` -/
+theorem step_live {s NR after0 initT xr x k} {i : Nat} (hs : SOK s NR) (hc : Core s NR x k) (d : Dep s after0 initT x)
+    (o : Ord s after0 initT xr x)
+    (hl : (i ∈ x.done ∧ Live s after0 initT (fun _ => False) x) ∨ (i ∉ x.done ∧ Live s after0 initT (· = i) x))
+    (hne : i ≠ s.n) (hemp : i < s.n → x.after.get i = [])
+    (hty : s.n < i → initT i ∨ ∃ p ∈ x.out, Releases s p i) :
+    Dep s after0 initT (x.processOne s i true) ∧ Live s after0 initT (fun _ => False) (x.processOne s i true) ∧
+    Ord s after0 initT xr (x.processOne s i true) := by
+  have d2 := processOne_dep hs hc d i true hne (fun hlt _ => hemp hlt) hty
+  refine ⟨d2, ?_, ?_⟩
+  · rcases hl with ⟨hid, l⟩ | ⟨hnd, l⟩
+    · have : x.processOne s i true = x := by
+        unfold Topo.processOne
+        have : x.done.contains i = true := by simpa using hid
+        simp only [this, if_true]
+      rw [this]; exact l
+    · exact processOne_live hs l hnd hne
+  · have hout := processOne_out s x i true
+    by_cases hdc : x.done.contains i
+    · simp only [hdc, if_true] at hout
+      intro b p hb; rw [hout] at hb ⊢; exact o b p hb
+    · simp only [hdc, Bool.false_eq_true, if_false] at hout
+      by_cases hgt : i > s.n
+      · simp only [hgt, if_true] at hout
+        intro b p hb; rw [hout] at hb ⊢; exact o b p hb
+      · simp only [hgt, if_false] at hout
+        exact ord_append hc d o i (hemp (by omega)) hout
+
+end Nject
+
+namespace Nject
+
+/-- **the loop of `topo.run` under the order condition**: when it ends by itself, `xr` has been emitted, every
+    provider waiting for a type only `xr` supplies was emitted after it, and the invariants still hold -/
+theorem loop_live {s NR after0 initT xr kx} (hs : SOK s NR) (H : LiveHyp s NR after0 initT xr kx) :
+    ∀ (fuel : Nat) (x : Topo), Nonempty (Full s NR x) → Dep s after0 initT x → Live s after0 initT (fun _ => False) x →
+      Ord s after0 initT xr x → (Topo.loop s fuel x).fuelOut = false →
+      xr ∈ (Topo.loop s fuel x).done ∧ Ord s after0 initT xr (Topo.loop s fuel x) ∧ Nonempty (Full s NR (Topo.loop s fuel x))
+  | 0, x, _, _, _, _, hfo => by unfold Topo.loop at hfo; simp at hfo
+  | fuel + 1, x, ⟨f⟩, d, l, o, hfo => by
+    unfold Topo.loop at hfo ⊢
+    cases hu : heapPop x.unblocked with
+    | some pr =>
+      obtain ⟨i, rest⟩ := pr
+      simp only [hu] at hfo ⊢
+      have ⟨⟨p, hp⟩, hrest⟩ := heapPop_spec hu
+      have hrest2 := heapPop_rest hu
+      let x1 : Topo := { x with unblocked := rest }
+      have c1 : Core s NR x1 f.k := f.core.mono rfl rfl rfl hrest (fun _ h => h)
+      have d1 : Dep s after0 initT x1 := d.congr rfl rfl rfl hrest (fun _ h => h)
+      have hne : i ≠ s.n := f.core.heapNe (p, i) (Or.inl hp)
+      have hpos : ∀ j, NR[j]? = some i → j ≤ f.k := f.core.heapNR (p, i) (Or.inl hp)
+      have hh : ∀ m, inHeap x m → inHeap x1 m ∨ m = i := by
+        rintro m ⟨e, he, hm⟩
+        rcases he with he | he
+        · rcases hrest2 e he with a | a
+          · exact Or.inl ⟨e, Or.inl a, hm⟩
+          · exact Or.inr (hm ▸ a)
+        · exact Or.inl ⟨e, Or.inr he, hm⟩
+      have hl1 : (i ∈ x1.done ∧ Live s after0 initT (fun _ => False) x1) ∨ (i ∉ x1.done ∧ Live s after0 initT (· = i) x1) := by
+        by_cases hid : i ∈ x.done
+        · exact Or.inl ⟨hid, l.popDone rfl rfl hh hid⟩
+        · exact Or.inr ⟨hid, l.pop rfl rfl hh⟩
+      have ⟨d2, l2, o2⟩ := step_live (xr := xr) hs c1 d1 (by exact o) hl1 hne
+        (fun hlt => d.heapEmpty (p, i) (Or.inl hp) hlt) (fun hgt => d.heapTy (p, i) (Or.inl hp) hgt)
+      obtain ⟨k', _, c2, _, hsub, hcr⟩ := processOne_core hs c1 i true hne hpos
+      exact loop_live hs H fuel _ ⟨⟨k', f.m, c2, by rw [hcr]; exact f.cr, fun j a hj ha => hsub a (f.crDone j a hj ha)⟩⟩ d2 l2 o2 hfo
+    | none =>
+      simp only [hu] at hfo ⊢
+      cases hw : heapPop x.weakBlocked with
+      | some pr =>
+        obtain ⟨i, rest⟩ := pr
+        simp only [hw] at hfo ⊢
+        have ⟨⟨p, hp⟩, hrest⟩ := heapPop_spec hw
+        have hrest2 := heapPop_rest hw
+        let x1 : Topo := { x with weakBlocked := rest }
+        have c1 : Core s NR x1 f.k := f.core.mono rfl rfl rfl (fun _ h => h) hrest
+        have d1 : Dep s after0 initT x1 := d.congr rfl rfl rfl (fun _ h => h) hrest
+        have hne : i ≠ s.n := f.core.heapNe (p, i) (Or.inr hp)
+        have hpos : ∀ j, NR[j]? = some i → j ≤ f.k := f.core.heapNR (p, i) (Or.inr hp)
+        have hh : ∀ m, inHeap x m → inHeap x1 m ∨ m = i := by
+          rintro m ⟨e, he, hm⟩
+          rcases he with he | he
+          · exact Or.inl ⟨e, Or.inl he, hm⟩
+          · rcases hrest2 e he with a | a
+            · exact Or.inl ⟨e, Or.inr a, hm⟩
+            · exact Or.inr (hm ▸ a)
+        have hl1 : (i ∈ x1.done ∧ Live s after0 initT (fun _ => False) x1) ∨ (i ∉ x1.done ∧ Live s after0 initT (· = i) x1) := by
+          by_cases hid : i ∈ x.done
+          · exact Or.inl ⟨hid, l.popDone rfl rfl hh hid⟩
+          · exact Or.inr ⟨hid, l.pop rfl rfl hh⟩
+        have ⟨d2, l2, o2⟩ := step_live (xr := xr) hs c1 d1 (by exact o) hl1 hne
+          (fun hlt => d.heapEmpty (p, i) (Or.inr hp) hlt) (fun hgt => d.heapTy (p, i) (Or.inr hp) hgt)
+        obtain ⟨k', _, c2, _, hsub, hcr⟩ := processOne_core hs c1 i true hne hpos
+        exact loop_live hs H fuel _ ⟨⟨k', f.m, c2, by rw [hcr]; exact f.cr, fun j a hj ha => hsub a (f.crDone j a hj ha)⟩⟩ d2 l2 o2 hfo
+      | none =>
+        simp only [hw] at hfo ⊢
+        have hue : x.unblocked = [] := heapPop_none hu
+        have hwe : x.weakBlocked = [] := heapPop_none hw
+        cases hc : x.cannotReorder with
+        | nil =>
+          simp only [hc] at hfo ⊢
+          -- every fixed provider has been taken
+          have hm : NR.length ≤ f.m := by
+            have := f.cr
+            rw [hc] at this
+            have hl := congrArg List.length this
+            simp at hl
+            omega
+          exact ⟨turn_xdone hs H l f hue hwe (Nat.le_trans H.kxle hm), o, ⟨f⟩⟩
+        | cons i cr =>
+          simp only [hc] at hfo ⊢
+          let x1 : Topo := { x with cannotReorder := cr }
+          have c1 : Core s NR x1 f.k := f.core.mono rfl rfl rfl (fun _ h => h) (fun _ h => h)
+          have d1 : Dep s after0 initT x1 := d.congr rfl rfl rfl (fun _ h => h) (fun _ h => h)
+          have hdrop : NR.drop f.m = i :: cr := by rw [← f.cr, hc]
+          have hml : f.m < NR.length := by
+            rcases Nat.lt_or_ge f.m NR.length with h | h
+            · exact h
+            · rw [List.drop_eq_nil_of_le h] at hdrop; cases hdrop
+          have hmi : NR[f.m]? = some i := by
+            rw [List.drop_eq_getElem_cons hml] at hdrop
+            rw [List.getElem?_eq_getElem hml]
+            exact congrArg some (List.cons.inj hdrop).1
+          have hcr' : cr = NR.drop (f.m + 1) := by
+            rw [List.drop_eq_getElem_cons hml] at hdrop
+            exact (List.cons.inj hdrop).2.symm
+          have hmemi := (hs.mem i).mp (List.mem_iff_getElem?.mpr ⟨f.m, hmi⟩)
+          have hne : i ≠ s.n := by have := hmemi.1; omega
+          have hmk : f.m ≤ f.k := by
+            rcases Nat.lt_or_ge f.k f.m with hlt | hge
+            · have hkl : f.k < NR.length := by omega
+              have hk : NR[f.k]? = some NR[f.k] := List.getElem?_eq_getElem hkl
+              have hd := f.crDone f.k _ hlt hk
+              have := f.core.done_idx hs hk hd
+              omega
+            · exact hge
+          have hpos : ∀ j, NR[j]? = some i → j ≤ f.k := by
+            intro j hj
+            have := hs.idx_inj hj hmi
+            omega
+          -- the constraints of `i` are all met
+          have hempty : x.after.get i = [] := turn_empty hs H l f hue hwe i hmi
+          have hrel : (x.after.get i).isEmpty = true := by rw [hempty]; rfl
+          rw [hrel] at hfo ⊢
+          have hl1 : (i ∈ x1.done ∧ Live s after0 initT (fun _ => False) x1) ∨ (i ∉ x1.done ∧ Live s after0 initT (· = i) x1) := by
+            by_cases hid : i ∈ x.done
+            · exact Or.inl ⟨hid, l.congr rfl rfl rfl rfl⟩
+            · exact Or.inr ⟨hid, l.pop rfl rfl (fun m hm => Or.inl hm)⟩
+          have ⟨d2, l2, o2⟩ := step_live (xr := xr) hs c1 d1 (by exact o) hl1 hne
+            (fun _ => hempty) (fun hgt => by have := hmemi.1; omega)
+          obtain ⟨k', _, c2, hin, hsub, hcr2⟩ := processOne_core hs c1 i true hne hpos
+          refine loop_live hs H fuel _ ⟨⟨k', f.m + 1, c2, by rw [hcr2]; exact hcr', ?_⟩⟩ d2 l2 o2 hfo
+          intro j a hj ha
+          rcases Nat.lt_or_ge j f.m with hlt | hge
+          · exact hsub a (f.crDone j a hlt ha)
+          · have : j = f.m := by omega
+            subst this
+            rw [hmi] at ha
+            cases ha
+            exact hin
+
+end Nject
+
+namespace Nject
+
+/-- `initT` only occurs in `initTy` -/
+theorem Live.changeInit {s after0 initT pend x} (h : Live s after0 initT pend x) (initT' : Nat → Prop)
+    (hi : ∀ num, initT' num → inHeap x num ∨ num ∈ x.done ∨ pend num) : Live s after0 initT' pend x :=
+  ⟨h.sub, h.gone, h.relTy, hi, h.ready⟩
+
+end Nject
